@@ -298,24 +298,35 @@ func c04CheckExpr(s string, res *core.CaseResult) {
 	}
 	cur := s
 	var applied []string
-	for _, rp := range c04ExprRepairs {
-		if ns, ok := rp.apply(cur); ok {
-			w2 := xp.RecogniseExpr(ns, c04Known)
-			g2, _ := implExpr(ns)
-			applied = append(applied, rp.class)
-			cur = ns
-			if w2 != xp.Unasserted && g2 == (w2 == xp.Accept) {
-				// the repaired sentence agrees: the disagreement is due to the
-				// repaired construct(s); attribute it to the last one needed
-				class = applied[len(applied)-1]
-				if len(applied) > 1 {
-					// several known constructs at once: attribute to each
-					for _, c := range applied[:len(applied)-1] {
-						res.Ev("multi_construct_"+c, 1)
+	done := false
+	// several known constructs may occur together (and one may hide another from
+	// the reference lexer): apply the repairs round by round until both sides agree
+	for round := 0; round < 4 && !done; round++ {
+		progressed := false
+		for _, rp := range c04ExprRepairs {
+			if ns, ok := rp.apply(cur); ok && ns != cur {
+				progressed = true
+				w2 := xp.RecogniseExpr(ns, c04Known)
+				g2, _ := implExpr(ns)
+				applied = append(applied, rp.class)
+				cur = ns
+				if w2 != xp.Unasserted && g2 == (w2 == xp.Accept) {
+					// the repaired sentence agrees: the disagreement is due to the
+					// repaired construct(s); attribute it to the last one needed
+					class = applied[len(applied)-1]
+					if len(applied) > 1 {
+						// several known constructs at once: attribute to each
+						for _, c := range applied[:len(applied)-1] {
+							res.Ev("multi_construct_"+c, 1)
+						}
 					}
+					done = true
+					break
 				}
-				break
 			}
+		}
+		if !progressed {
+			break
 		}
 	}
 	res.Fail(class, s, fmt.Sprintf("implementation accepted=%v, reference verdict=%s", got, want))
@@ -601,7 +612,7 @@ func (p *c04) Run(tier string, seed int64, idx int) core.CaseResult {
 		check(base[:i]+"\xff"+base[i:], &res)
 		if i < len(base) {
 			check(base[:i]+base[i+1:], &res)
-			check(base[:i]+string(core.Pick(r, []byte("$#!{}\\'\"()[]/.:*@,|=<>+- \t"))) + base[i:], &res)
+			check(base[:i]+string(core.Pick(r, []byte("$#!{}\\'\"()[]/.:*@,|=<>+- \t")))+base[i:], &res)
 		}
 	}
 	if idx%499 == 0 {
